@@ -6,6 +6,12 @@ VERIF = os.path.dirname(os.path.dirname(os.path.abspath(__file__)))
 rnd, outroot, wtprefix = sys.argv[1], sys.argv[2], sys.argv[3]
 props = [json.loads(l) for l in open(os.path.join(VERIF, "properties.jsonl"))]
 EMPH = {
+ "8": ("This round has no prescribed dimension: read the code that implements the property's mechanism (and its callers in ./vflow) closely and "
+       "seed the subtlest, most realistic defect you can find that none of the listed ideas covers — different mechanism, different code site, "
+       "different trigger. Think of what a careful reviewer would still wave through: a changed default of a helper, an early return that skips a "
+       "later step, state that survives from one message / datagram / connection / run to the next, an assumption about what a library call returns, "
+       "arithmetic on lengths and counts, an error path that is taken once in a while. It must not be detectable by a data-race detector alone, "
+       "and ordinary traffic with default settings must look healthy."),
  "7": ("This round: make the violation live in a NARROW region of the input or state space, the kind that randomly generated tests with some ten "
        "thousand cases tend to miss: a specific boundary or magic value of one particular field (a power of two, 255/256, 65535/65536, 2^31, "
        "2^32-1, a particular element id, type, protocol number, address or port), preferably combined with a second independent condition "
